@@ -1594,6 +1594,104 @@ def men_program(member, rs):
                        "encsub": pos in MEN_TARGET_POS, "ann": bind == "ann"}}
 
 
+# ------------------------------------------------------------------------------ the exit family
+# WHOSE declarations govern a function's names after a callee left by an exception?  A caller f0 calls a callee f1
+# whose `global` / local status of a name differs from the caller's; the callee leaves normally or by an exception
+# out of its body (an unbound name, an exception out of a nested call, a TypeError of a call made in the body); the
+# caller catches it and then assigns / deletes / defines that name, or reads one of its own not-yet-assigned locals
+# that also exists as a global; a function reading the GLOBAL table and the module show where the effect went.
+EXIT_KIND = ("return", "raise", "nested", "typeerr")
+EXIT_STATUS = ("callee-global", "caller-global", "same-local")
+EXIT_ACTION = ("assign", "del", "def", "read")
+EXIT_DEPTH = ("top", "nested")
+EXIT_NAMES = ["v0", "v1", "v2", "f0", "f1", "f2", "f3", "f5", FREEVAR, "abs", "o0", "o1", "__init__"]
+
+
+def exit_members():
+    return [(e, s_, a, d) for e in EXIT_KIND for s_ in EXIT_STATUS for a in EXIT_ACTION for d in EXIT_DEPTH]
+
+
+def exit_program(member, rs):
+    exitk, status, action, depth = member
+    r = random.Random(rs * 1000003 + hash_str("/".join(member)))
+    codes = [None]
+    nsite = [0]
+
+    def S():
+        nsite[0] += 1
+        return nsite[0]
+
+    def K(n=[0]):
+        n[0] += 1
+        return I(100 * r.randint(1, 9) + n[0])
+
+    def ev(a, s=None):
+        return {"k": "ev", "s": s or S(), "a": a}
+
+    def call(f, *args):
+        return {"k": "call", "f": f, "args": list(args), "kws": []}
+
+    def add(code):
+        codes.append(code)
+        return len(codes)
+
+    x = "v0"
+    # the callee
+    gbody = []
+    if status != "callee-global":
+        gbody.append({"k": "assign", "x": x, "e": K(), "g": 0})                  # x is the callee's local
+    else:
+        gbody.append({"k": "expr", "e": ev(N(x)), "g": S()})                     # reads the global
+    if exitk == "raise":
+        gbody.append({"k": "expr", "e": ev(N(FREEVAR)), "g": 0})
+    elif exitk == "nested":
+        g2 = add(new_code("func", body=[{"k": "expr", "e": ev(N(FREEVAR)), "g": 0}]))
+        gbody += [{"k": "def", "x": "f2", "c": g2, "decos": [], "g": 0}, {"k": "expr", "e": call(N("f2")), "g": 0}]
+    elif exitk == "typeerr":
+        gbody.append({"k": "expr", "e": call(N("abs")), "g": 0})
+    gbody.append({"k": "ret", "e": K(), "g": 0})
+    gi = add(new_code("func", globals=[x] if status == "callee-global" else [], body=gbody))
+    # the reader of the GLOBAL table
+    rsite = S()
+    hi = add(new_code("func", globals=[x, "v1"], body=[{"k": "expr", "e": ev(N("v1")), "g": S()},
+                                                       {"k": "ret", "e": ev(N(x), rsite), "g": 0}]))
+    # the caller
+    cg = [x] if status == "caller-global" else []
+    fbody = [{"k": "assign", "x": x, "e": K(), "g": 0},
+             {"k": "def", "x": "f1", "c": gi, "decos": [], "g": 0},
+             {"k": "def", "x": "f5", "c": hi, "decos": [], "g": 0},
+             {"k": "expr", "e": ev(call(N("f1"))), "g": S()}]
+    if action == "assign":
+        fbody += [{"k": "assign", "x": x, "e": K(), "g": 0}]
+    elif action == "del":
+        fbody += [{"k": "del", "x": x, "g": S()}]
+    elif action == "def":
+        di = add(new_code("func", body=[{"k": "ret", "e": K(), "g": 0}]))
+        fbody += [{"k": "def", "x": x, "c": di, "decos": [], "g": 0}]
+    else:
+        fbody += [{"k": "expr", "e": ev(N("v1")), "g": S()}]                     # v1: a local assigned only below
+    fbody += [{"k": "expr", "e": ev(N(x)), "g": S()},
+              {"k": "expr", "e": ev(call(N("f5"))), "g": S()},
+              {"k": "assign", "x": "v1", "e": K(), "g": 0},
+              {"k": "ret", "e": ev(N("v1")), "g": 0}]
+    fi = add(new_code("func", globals=cg, body=fbody))
+    mbody = [{"k": "assign", "x": x, "e": K(), "g": 0}, {"k": "assign", "x": "v1", "e": K(), "g": 0}]
+    if depth == "nested":
+        oi = add(new_code("func", body=[{"k": "def", "x": "f0", "c": fi, "decos": [], "g": 0},
+                                        {"k": "ret", "e": call(N("f0")), "g": 0}]))
+        mbody += [{"k": "def", "x": "f3", "c": oi, "decos": [], "g": 0}, {"k": "expr", "e": ev(call(N("f3"))), "g": S()}]
+    else:
+        mbody += [{"k": "def", "x": "f0", "c": fi, "decos": [], "g": 0}, {"k": "expr", "e": ev(call(N("f0"))), "g": S()}]
+    msite = S()
+    mbody += [{"k": "expr", "e": ev(N(x), msite), "g": S()}, {"k": "expr", "e": ev(N("v1")), "g": S()}]
+    codes[0] = new_code("module", body=mbody)
+    corr = [{"name": "table", "site": rsite, "to": "inc"}, {"name": "table2", "site": msite, "to": "inc"}]
+    return {"seed": "x:%s/%s/%s/%s/%d" % (member + (rs,)), "codes": codes, "names": EXIT_NAMES, "corruptions": corr,
+            "family": {"fam": "exit", "exit": exitk, "status": status, "action": action, "depth": depth,
+                       # (the reader of the global table raises too when the caller has deleted the global)
+                       "excexit": exitk != "return" or (status == "caller-global" and action == "del")}}
+
+
 def apply_corruption(log, c):
     """the log with the first event at site c['site'] changed (value + 1, or replaced); None if there is none"""
     for j, e in enumerate(log):
@@ -1679,7 +1777,8 @@ def work_scope(job):
         progs.append((seed, not loci(g[0])) + g)
     extra = {}
     for c in ((job.get("explicit") or []) + [cap_program(tuple(m), rs) for m, rs in job.get("capture") or []]
-              + [men_program(tuple(m), rs) for m, rs in job.get("mention") or []]):
+              + [men_program(tuple(m), rs) for m, rs in job.get("mention") or []]
+              + [exit_program(tuple(m), rs) for m, rs in job.get("exit") or []]):
         progs.append((c["seed"], not loci(c["codes"]), c["codes"], render(c["codes"]), {}))
         extra[c["seed"]] = c
     stats["swap"] = []
